@@ -148,28 +148,27 @@ Theorem C05_D11_protocol_refuted :
 Proof. exact (conj D11_back_from_end_refuted D11_forward_then_back_refuted). Qed.
 Print Assumptions C05_D11_protocol_refuted.
 
-(* ---- D15: cf_iter(c); --it; ++it;  CellFaceIterImpl::operator-- returns early at the first face with its internal
-   iterator at end(); the next ++ steps past end() and dereferences it.  Every other class comes back invalid. *)
-Theorem C05_D15_cell_face_back_then_forward_refuted : forall l m x t, l = x :: t ->
-  circ_prev CF l (mkC 0 0%Z true (Some x)) = Some (mkC (length l) (-1)%Z false (Some x)) /\
-  circ_next CF l m (mkC (length l) (-1)%Z false (Some x)) = None.
-Proof. intros l m x t E. exact (cf_prev_at_begin_then_next_undefined l m x t E). Qed.
-Print Assumptions C05_D15_cell_face_back_then_forward_refuted.
-
-Theorem C05_back_then_forward_partial : forall (k : ckind) l m x t, k <> CF -> l = x :: t -> (1 <= m)%Z ->
+(* ---- stepping back from begin and then forward again is defined for EVERY class and comes back invalid on the
+   first element.  (For cf_iter this used to read past the end of the cell's halfface vector - lead D15, repaired in
+   /repo by "fix: CellFaceIter::operator-- must not leave its position at end()"; corpus/iter keeps the replay.) *)
+Theorem C05_back_then_forward : forall (k : ckind) l m x t, l = x :: t -> (1 <= m)%Z ->
   exists c' c'', circ_prev k l (mkC 0 0%Z true (Some x)) = Some c' /\ c_valid c' = false /\
                  circ_next k l m c' = Some c'' /\ c_valid c'' = false.
-Proof.
-  intros k l m x t Hk. apply (back_then_forward_defined (nextv_of k) (prevv_of k)).
-  destruct k; simpl; congruence.
-Qed.
-Print Assumptions C05_back_then_forward_partial.
+Proof. intros k. exact (back_then_forward_defined (nextv_of k) (prevv_of k)). Qed.
+Print Assumptions C05_back_then_forward.
 
-(* ---- D8: bc_iter() with face bottom-up incidences disabled reads the empty incident-cell cache *)
-Theorem C05_D8_bc_iter_refuted :
-  bu_exact ex_d8 /\ wf_iter ex_d8 /\ fbu ex_d8 = false /\ bnd_has_inc KC ex_d8 = true /\ bnd_begin KC ex_d8 = None.
-Proof. exact D8_bc_iter_undefined. Qed.
-Print Assumptions C05_D8_bc_iter_refuted.
+(* ---- a boundary iterator whose incidence guard fails is invalid at construction, holds the invalid handle and has
+   read nothing.  For bc_iter() the guard is "face incidences" (lead D8: has_incidences() used to return true and the
+   constructor indexed the empty incident-cell cache; repaired in /repo by "fix: boundary cell iterator needs face
+   bottom-up incidences"; corpus/iter keeps the replay). *)
+Theorem C05_boundary_unguarded_invalid : forall (k : kind) (s : mesh), k <> KM -> flags_sized s -> bnd_has_inc k s = false ->
+  exists it0, bnd_begin k s = Some (mkB it0 false (-1)%Z).
+Proof. exact boundary_iter_unguarded_invalid. Qed.
+Print Assumptions C05_boundary_unguarded_invalid.
+
+Theorem C05_bc_iter_guard : forall s, bnd_has_inc KC s = fbu s.
+Proof. reflexivity. Qed.
+Print Assumptions C05_bc_iter_guard.
 
 (* ---- builders: the list each class walks = the incident set computed from the definitions of the
    not-deleted entities; NoDup where the relation is a set; no deleted entity (see also Properties_C01_queries) *)
@@ -225,9 +224,9 @@ Qed.
 Print Assumptions C05_builders_cell_and_topdown.
 
 (* ---- boundary iterators (bv/bhe/be/bhf/bf/bc_iter): exactly the not-deleted boundary entities, ascending, once;
-   bc_iter only with face incidences enabled (otherwise C05_D8_bc_iter_refuted) *)
+   whenever the incidence guard of the kind holds (otherwise C05_boundary_unguarded_invalid) *)
 Theorem C05_boundary_iterators : forall (k : kind) (s : mesh), k <> KM -> bu_exact s -> wf_iter s -> flags_sized s ->
-  bnd_has_inc k s = true -> fbu s = true ->
+  bnd_has_inc k s = true ->
   (exists b e, bnd_begin k s = Some b /\
                b_trace (S (ent_n k s)) (ent_rdel k s) (ent_n k s) (is_boundary k s) b
                = Some (map Z.of_nat (filter (fun i => negb (ent_deleted k s i) && bdry k s i) (seq 0 (ent_n k s))), e) /\
